@@ -66,7 +66,12 @@ def run(P, rep):
             if m in ("write_fmt", "flush"):
                 rep.ok("R-UTF8SINK", site, where, "write_fmt: bytes come from fmt::Arguments, i.e. from str pieces and Display impls")
                 continue
-            if m in ("write", "write_all", "write_vectored", "write_all_vectored") and len(t["args"]) >= 2:
+            if m in ("write", "write_vectored"):
+                rep.viol("R-UTF8SINK", site, where,
+                         "a bare io::Write::%s may accept a short count; unless the count is looped on, the rest of the "
+                         "text is silently lost on a sink that takes fewer bytes (use write_all / write!)" % m)
+                continue
+            if m in ("write_all", "write_all_vectored") and len(t["args"]) >= 2:
                 ol = op_local(t["args"][1])
                 dc = single_def_call(P, fn, ol[0]) if ol else None
                 nm = dc["f"]["name"] if dc and dc.get("f") else ""
